@@ -99,5 +99,25 @@ pub proof fn lemma_strict(s: Seq<u32>)
             }
 //@end
 
+// ---- the threshold the automatic branch starts from: `let min_first_zoom_size = ..;` (first statement) ----
+pub fn max_u32(a: u32, b: u32) -> (r: u32) ensures r == (if a >= b { a } else { b }) { if a >= b { a } else { b } }
+/// u32::saturating_mul (assumed std contract)
+#[verifier::external_body]
+pub fn sat_mul_u32(a: u32, b: u32) -> (r: u32)
+    ensures r as int == (if a as int * b as int <= u32::MAX as int { a as int * b as int } else { u32::MAX as int }),
+{ a.saturating_mul(b) }
+//@extract fn bigtools/src/bbi/bbiwrite.rs write_zoom_vals
+//@presub /\A.*?\n[ \t]*(let min_first_zoom_size = [^;]*;).*\Z/ => fn min_first_zoom(average_size: u32) -> u32 {\n    \1\n    min_first_zoom_size\n} min=1 count=1
+//@sub /(\w+)\.max\((\d+)\)/ => max_u32(\1, \2) min=0
+//@sub /(max_u32\([^()]*\)|\w+)\.saturating_mul\((\d+)\)/ => sat_mul_u32(\1, \2) min=0
+//@ret r
+//@sig
+    ensures
+        // four times the average item size (at least 10 bases), capped at the largest u32: never a panic, never a
+        // wrapped-around (tiny) threshold for files whose items average 2^30 bases or more
+        [[L: min_first_zoom_size_no_overflow]]
+        r as int == (if 4 * (if average_size >= 10 { average_size as int } else { 10 }) <= u32::MAX as int { 4 * (if average_size >= 10 { average_size as int } else { 10 }) } else { u32::MAX as int }),
+//@end
+
 } // verus!
 fn main() {}
